@@ -464,7 +464,7 @@ Definition delta (x : op V) (r : out V) : (nat * nat) * (nat * nat) * (nat * nat
   | HDropOwner, _ => ((0, 1), (0, 0), (0, 0))
   | WSubscribe, _ | WSubscribeReset, _ | SClone _, _ | SCloneReset _, _ => ((0, 0), (1, 0), (0, 0))
   | SDrop _, _ => ((0, 0), (0, 1), (0, 0))
-  | HDowngrade, _ => ((0, 0), (0, 0), (1, 0))
+  | HDowngrade, _ | HCloneWeak, _ => ((0, 0), (0, 0), (1, 0))
   | HDropWeak, _ => ((0, 0), (0, 0), (0, 1))
   | _, _ => ((0, 0), (0, 0), (0, 0))
   end.
